@@ -160,105 +160,104 @@ def run(R, tier):
     else:
         R.anchor_lost("R09.3", "ResponseData for bool")
 
-    # ---- R09.4 block ---------------------------------------------------------------------------------------------
+    # ---- R09.4-R09.7: emission tables (sa/rules/emit.py) ------------------------------------------------------------------
+    # Each writer is interpreted on representative values; what it sends to the Formatter is compared with the
+    # IEEE 488.2 section 8.7 encoding computed here, independently of how the writer is organised.
+    from . import emit as E
+    em_eng = E.engine()
+    n_em = 0
+
+    def table(rule, key, body, cases, ok_text):
+        nonlocal n_em
+        bad = []
+        for label, val, exp in cases:
+            n_em += 1
+            try:
+                em = E.emit(em_eng, body, val)
+            except (fdai.TooManyPaths, RecursionError) as e:
+                bad.append("%s: undecided (%s)" % (label, type(e).__name__))
+                continue
+            why = E.check_refusal(em, exp[1]) if isinstance(exp, tuple) and exp and exp[0] == "refuse" else E.check_emission(em, exp)
+            if why:
+                bad.append("%s: %s" % (label, why))
+        R.check(not bad, rule, key, ok_text + " (%d values)" % len(cases), "; ".join(bad[:4]), where=body.span)
+
+    # R09.4 definite-length block
     bs = fmt_impls(u, lambda s: s.endswith("format::Arbitrary<'a>"))
     if len(bs) != 1:
         R.anchor_lost("R09.4", "ResponseData for Arbitrary")
     else:
-        b = bs[0]
-        ps = run_fmt(eng, b, AggV("Arbitrary", {0: SymV("payload", "payload")}))
-        good = bool(ps)
-        kinds = set()
-        for p in ps:
-            w = p.call("write")
-            if w is None or p.calls[0] is not None and p.count("write") != 1:
-                good = False
+        def block(payload):
+            n = str(len(payload)).encode()
+            return [b"#", ("num", len(n)), n + payload]
+        lens = [0, 1, 2, 9, 10, 11, 99, 100, 101, 999, 1000] + ([9999, 10000, 65535, 65536] if tier == "thorough" else [])
+        cases = [("len=%d" % n, AggV("Arbitrary", {0: E.sl(bytes((i * 7 + 33) % 256 for i in range(n)))}), block(bytes((i * 7 + 33) % 256 for i in range(n)))) for n in lens]
+        cases.append(("payload with '#', quotes and newline", AggV("Arbitrary", {0: E.sl(b'#"\n;,')}), block(b'#"\n;,')))
+        table("R09.4", "Arbitrary", bs[0], cases, "'#', the number of length digits, the decimal length, the payload verbatim")
+        # more than 9 length digits cannot be announced: refused before anything is written. The length writer is
+        # replaced by one that returns 9 / 10 digits so that the limit itself is observed.
+        for digits, refuse in ((b"123456789", False), (b"1234567890", True), (b"12345678901234567890", True)):
+            eng2 = E.engine({"lexical_core::write": E.m_write_usize(digits)})
+            n_em += 1
+            try:
+                em = E.emit(eng2, bs[0], AggV("Arbitrary", {0: SymV("payload", "payload")}))
+            except (fdai.TooManyPaths, RecursionError) as e:
+                R.violation("R09.4", "Arbitrary:%d-length-digits" % len(digits), "the block writer's treatment of a %d-digit length is undecided (%s): the length digits are not obtained from the decimal writer" % (len(digits), type(e).__name__), where=bs[0].span)
                 continue
-            g = ((w.extra or {}).get("gargs") or ())
-            # the number formatted is the payload's length
-            if tuple(g[:1]) != ("usize",) or not ("len" in repr(w.args[0]) and "payload" in repr(w.args[0])):
-                good = False
-            gt = [e for e in p.r.trace if e.kind == "assume" and e.name == "sym" and isinstance(e.args[0][2], tuple) and e.args[0][2][0] == "binop" and e.args[0][2][1] in ("Gt", "Ge", "Lt", "Le")]
-            ws = writes(p)
-            if p.outcome == "Err(ExecutionError)":
-                kinds.add("too-long")
-                if ws or not gt:
-                    good = False
-                else:
-                    d = gt[0].args[0][2]
-                    lim_ok = d[1] == "Gt" and ("len" in repr(d[2]) and "write" in repr(d[2])) and d[3] == ("K", 9) and gt[0].args[1] is True
-                    good = good and lim_ok
-                continue
-            if not complete(p):
-                continue
-            kinds.add("ok")
-            seq = [x[0] for x in ws]
-            ok = seq == ["push_byte", "format_response_data", "push_str", "push_str"] and ws[0][1] == ("K", 35)
-            if ok:
-                # digit count = length of the very slice that is then pushed as the length digits
-                dc = ws[1][1]
-                ok = "len" in repr(dc) and "write" in repr(dc) and CB.ret_of(ws[2][1], "write") and ("sym", "payload", "payload") in _flat(ws[3][1])
-                ok = ok and p.outcome == "ret:push_str"
-            good = good and ok
-        R.check(good and kinds == {"ok", "too-long"}, "R09.4", "Arbitrary", "'#', digit count (= length of the length digits), the length digits (decimal of payload.len()), payload - in this order; more than 9 length digits -> error", "definite-length block writer must emit '#', the number of length digits, the length digits and the payload, all derived from the same payload/digit slice: %s" % [(p.outcome, [x[0] for x in writes(p)]) for p in ps], where=b.span)
+            if refuse:
+                why = E.check_refusal(em, "ExecutionError")
+            else:
+                full = em.full[0][1] if len(em.full) == 1 else None
+                why = None if (full is not None and E._flatten(full[:2]) == E._flatten([b"#", ("num", 9)]) and not em.other) else "a 9-digit length is not written as a block: %s" % em.describe()
+            R.check(not why, "R09.4", "Arbitrary:%d-length-digits" % len(digits), "refused with -200 before any output" if refuse else "accepted", "block whose length has %d digits: %s" % (len(digits), why), where=bs[0].span)
     bs = fmt_impls(u, lambda s: s == "&'a str")
     if len(bs) == 1:
-        ps = run_fmt(eng, bs[0], SymV("s", "s"))
-        ok = len(ps) == 1 and ps[0].names == ["as_bytes", "format_response_data"] and "Arbitrary" in (ps[0].calls[1].extra or {}).get("self_ty", "") and ps[0].outcome == "ret:format_response_data"
-        R.check(ok, "R09.4", "&str", "delegates to the block writer on its bytes", "&str must be written as a definite-length block of its bytes: %s" % [p.describe() for p in ps], where=bs[0].span)
+        def block(payload):
+            n = str(len(payload)).encode()
+            return [b"#", ("num", len(n)), n + payload]
+        table("R09.4", "&str", bs[0], [(repr(t), E.sl(t), block(t)) for t in (b"", b"hello", b'say "hi"', b"0123456789")], "written as a definite-length block of its bytes")
 
-    # ---- character / expression ---------------------------------------------------------------------------------------
+    # character / expression data
     bs = fmt_impls(u, lambda s: s.endswith("format::Character<'a>"))
     if len(bs) == 1:
-        ps = run_fmt(eng, bs[0], AggV("Character", {0: SymV("payload", "payload")}))
-        ws = [writes(p) for p in ps]
-        ok = len(ps) == 1 and [(x[0], x[1]) for x in ws[0]] == [("push_ascii", ("sym", "payload", "payload"))]
-        R.check(ok, "R09.5", "Character", "the mnemonic bytes, unquoted", "Character must be written as its bytes: %s" % [p.describe() for p in ps], where=bs[0].span)
+        table("R09.5", "Character", bs[0], [(repr(t), AggV("Character", {0: E.sl(t)}), [t]) for t in (b"MAX", b"ch1", b"A")], "the mnemonic bytes, unquoted")
     bs = fmt_impls(u, lambda s: s.endswith("format::Expression<'a>"))
     if len(bs) == 1:
-        ps = [p for p in run_fmt(eng, bs[0], AggV("Expression", {0: SymV("payload", "payload")})) if complete(p)]
-        ws = [writes(p) for p in ps]
-        ok = len(ps) == 1 and [(x[0], x[1]) for x in ws[0]] == [("push_byte", ("K", 40)), ("push_ascii", ("sym", "payload", "payload")), ("push_byte", ("K", 41))]
-        R.check(ok, "R09.5", "Expression", "'(' payload ')'", "Expression must be written in parentheses: %s" % [p.describe() for p in ps], where=bs[0].span)
+        table("R09.5", "Expression", bs[0], [(repr(t), AggV("Expression", {0: E.sl(t)}), [b"(" + t + b")"]) for t in (b"@1,2", b"1:3", b"")], "'(' payload ')'")
 
-    # ---- R09.5 string ----------------------------------------------------------------------------------------------------
-    check_string_writer(R, P, u)
+    # R09.5 quoted string
+    bs = fmt_impls(u, lambda s: s == "&'a [u8]")
+    if len(bs) != 1:
+        R.anchor_lost("R09.5", "ResponseData for &[u8]")
+    else:
+        texts = [b"", b"abc", b'"', b'""', b'a"b', b'"a', b'a"', b'a"b"c', b'""a""', b"it's", b"a,b;c\n", b"#H10"]
+        cases = [(repr(t), E.sl(t), [b'"' + t.replace(b'"', b'""') + b'"']) for t in texts]
+        cases += [(repr(t), E.sl(t), ("refuse", "ExecutionError")) for t in (b"\xff", b"a\x80b", b'"\xe9')]
+        table("R09.5", "&[u8]", bs[0], cases, "'\"' text with every '\"' doubled '\"'; non-ASCII text refused with -200 before any output")
 
-    # ---- R09.6 error item ----------------------------------------------------------------------------------------------------
-    check_error_writer(R, P, u)
+    # R09.6 error-queue item
+    check_error_writer(R, P, u, em_eng, E)
 
-    # ---- R09.7 lists --------------------------------------------------------------------------------------------------------------
+    # R09.7 lists
     for who in ("alloc::vec::Vec<T>", "arrayvec::ArrayVec<T, N>"):
         bs = fmt_impls(u, lambda s, who=who: s == who)
         if len(bs) != 1:
             R.anchor_lost("R09.7", "ResponseData for %s" % who)
             continue
-        b = bs[0]
-        engl = fdai.Engine(P, u, inline=lambda n, r: r.endswith("error::Error::new"), models={}, loop_limit=3)
-        ps = run_fmt(engl, b, SymV("list", "list"))
-        kinds = set()
-        good = bool(ps)
-        for p in ps:
-            if p.r.outcome == "cut":
-                continue
-            ws = writes(p)
-            if p.outcome == "Err(DeviceSpecificError)":
-                kinds.add("empty")
-                good = good and not ws
-                continue
-            if not complete(p):
-                continue
-            seq = [(x[0], x[1] if x[0] == "push_byte" else None) for x in ws]
-            # element (',' element)*
-            ok = len(seq) >= 1 and seq[0] == ("format_response_data", None)
-            rest = seq[1:]
-            ok = ok and len(rest) % 2 == 0 and all(rest[i] == ("push_byte", ("K", 44)) and rest[i + 1] == ("format_response_data", None) for i in range(0, len(rest), 2))
-            # every element written is an item drawn from the iterator, in order, each once
-            items = [repr(x[1]) for x in ws if x[0] == "format_response_data"]
-            ok = ok and len(set(items)) == len(items) and all("next" in it for it in items)
-            kinds.add("n=%d" % len(items))
-            good = good and ok and M.outcome(p.r) == "Ok"
-        R.check(good and {"empty", "n=1", "n=2"} <= kinds, "R09.7", who.split("<")[0].split("::")[-1], "elements joined by ',' (none leading or trailing); empty list -> error", "list writer for %s must emit element (',' element)* and reject an empty list: %s" % (who, [(p.outcome, [x[0] for x in writes(p)]) for p in ps]), where=b.span)
+        cases = []
+        for n in (0, 1, 2, 3, 5):
+            lst = fdai.ListV([Cell(SymV("el%d" % i, "el%d" % i), "el%d" % i) for i in range(n)])
+            if n == 0:
+                cases.append(("empty", lst, ("refuse", "DeviceSpecificError")))
+            else:
+                exp = []
+                for i in range(n):
+                    if i:
+                        exp.append(b",")
+                    exp.append(("item", "el%d" % i))
+                cases.append(("n=%d" % n, lst, exp))
+        table("R09.7", who.split("<")[0].split("::")[-1], bs[0], cases, "every element once, in order, joined by ',' (none leading or trailing); empty list refused")
+    R.count("emission_evaluations", n_em)
 
     # ---- R09.8 writer/reader agreement ------------------------------------------------------------------------------------------------
     rows = CV.matrix("dflt", "scpi")
@@ -316,113 +315,74 @@ def _flat(t):
     return out
 
 
-def check_string_writer(R, P, u):
-    bs = fmt_impls(u, lambda s: s == "&'a [u8]")
-    if len(bs) != 1:
-        R.anchor_lost("R09.5", "ResponseData for &[u8]")
-        return
-    b = bs[0]
-    eng = fdai.Engine(P, u, inline=lambda n, r: "push_escaped" in r or "push_quoted" in r, models={}, loop_limit=3)
-    ps = run_fmt(eng, b, SymV("text", "text"))
-    good = bool(ps)
-    kinds = set()
-    split_closure = None
-    for p in ps:
-        if p.r.outcome == "cut":
-            continue
-        asc = p.assumed_ret("is_ascii", 0)
-        ws = writes(p)
-        if asc is False:
-            kinds.add("non-ascii")
-            good = good and p.outcome == "Err(ExecutionError)" and not ws
-            continue
-        if asc is None:
-            good = False
-            continue
-        sp = p.call("split")
-        if sp is not None:
-            for a in sp.args:
-                if isinstance(a, tuple) and a and a[0] == "closure":
-                    split_closure = a[1]
-            if "'text'" not in repr(sp.args[0]):
-                good = False
-        if not complete(p):
-            continue
-        seq = [(x[0], C_bytes(x[1]) if x[0] == "push_str" else (x[1] if x[0] == "push_byte" else "piece")) for x in ws]
-        if not seq or seq[0] != ("push_byte", ("K", 34)) or seq[-1] != ("push_byte", ("K", 34)):
-            good = False
-            continue
-        inner = seq[1:-1]
-        if not inner:
-            continue  # zero pieces: excluded by the contract of slice::Split (yields at least one item)
-        # piece ( '""' piece )*
-        ok = len(inner) >= 1 and inner[0][0] == "push_ascii"
-        rest = inner[1:]
-        ok = ok and len(rest) % 2 == 0 and all(rest[i] == ("push_str", b'""') and rest[i + 1][0] == "push_ascii" for i in range(0, len(rest), 2))
-        pieces = [repr(x[1]) for x in ws if x[0] == "push_ascii"]
-        ok = ok and all("next" in pc for pc in pieces) and len(set(pieces)) == len(pieces)
-        kinds.add("pieces=%d" % len(pieces))
-        good = good and ok
-    R.check(good and {"non-ascii", "pieces=1", "pieces=2"} <= kinds, "R09.5", "&[u8]", "non-ASCII -> error; '\"' piece ('\"\"' piece)* '\"' with the pieces of split(text, == '\"')", "string writer must reject non-ASCII, open and close with '\"' and double every embedded quote: %s" % [(p.outcome, [x[0] for x in writes(p)]) for p in ps], where=b.span)
-    if split_closure:
-        cb = eng.find_body(split_closure)
-        ok = True
-        for byte, exp in ((34, True), (39, False), (65, False), (44, False)):
-            rr = eng.run(cb, [RefV(Cell(AggV("closure-env", {}), "env"), (), True), RefV(Cell(K(byte), "b"))])
-            ok = ok and len(rr) == 1 and isinstance(rr[0].retval, K) and bool(rr[0].retval.v) == exp
-        R.check(ok, "R09.5", "&[u8]:split-byte", "pieces are split at '\"' (the byte that is doubled and that delimits the string)", "the string writer splits at a byte other than '\"'", where=cb.span)
-    else:
-        R.anchor_lost("R09.5", "split predicate of the string writer")
-
-
-def check_error_writer(R, P, u):
+def check_error_writer(R, P, u, eng, E):
+    """code ',' '"' message [';' extended] '"' with every embedded quote doubled; non-ASCII text refused"""
     bs = [b for b in u.bodies if b.name == "format_response_data" and RD in (b.impl_trait or "") and (b.impl_self or "").endswith("error::Error")]
     if len(bs) != 1:
         R.anchor_lost("R09.6", "ResponseData for Error")
         return
     b = bs[0]
-    eng = fdai.Engine(P, u, inline=lambda n, r: "push_escaped" in r or "push_quoted" in r, models={}, loop_limit=3)
-    ps = run_fmt(eng, b, SymV("err", "err"))
-    good = bool(ps)
-    kinds = set()
-    detail = []
-    for p in ps:
-        if not complete(p) or p.r.outcome == "cut":
+    EC = "scpi::error::ErrorCode"
+    tab = eng.enum_tables.get(EC) or {}
+    by_name = {v: d for d, v in tab.items()}
+    import json, os
+    from ..report import VERIF
+    oracle = {e["variant"]: e for e in json.load(open(os.path.join(VERIF, "oracle", "errors.json")))["errors"]} if os.path.exists(os.path.join(VERIF, "oracle", "errors.json")) else {}
+    picks = [n for n in ("NoError", "CommandError", "UndefinedHeader", "QueueOverflow", "DeviceSpecificError", "QueryInterrupted", "OutOfMemory") if n in by_name]
+    if len(picks) < 5:
+        R.anchor_lost("R09.6", "ErrorCode variants (have %s)" % sorted(by_name)[:6])
+        return
+    bad = []
+    n = 0
+
+    def err(codeval, ext):
+        return AggV("scpi::error::Error", {0: codeval, 1: fdai.mk_option(ext) if ext is not None else fdai.mk_option(None)})
+
+    def q(t):
+        return t.replace(b'"', b'""')
+
+    for name in picks:
+        o = oracle.get(name)
+        if o is None:
             continue
-        ws = writes(p)
-        ext = p.assumed_variant("get_extended", 0)
-        seq = [x[0] for x in ws]
-        if p.outcome == "Err(ExecutionError)" and (p.assumed_ret("is_ascii", 0) is False or p.assumed_ret("is_ascii", 1) is False):
-            # non-ASCII text is refused before the quoted part is started (only the code may have been written)
-            good = good and len(ws) <= 2
-            continue
-        # code first, then the data separator
-        ok = len(ws) >= 3 and ws[0][0] == "format_response_data" and "get_code" in repr(ws[0][1]) and "'err'" in repr(ws[0][1]) and ws[1][0] == "data_separator"
-        body = ws[2:]
-        if ext == "None":
-            kinds.add("plain")
-            # message through the string writer (quotes doubled, ASCII checked)
-            ok = ok and len(body) == 1 and body[0][0] == "format_response_data" and "get_message" in repr(body[0][1]) and "[u8]" in ((body[0][2].extra or {}).get("self_ty") or "")
-        elif ext == "Some":
-            kinds.add("extended")
-            # "message;extended" inside ONE pair of quotes, each text part written through the quote-doubling writer
-            flat = [(x[0], C_bytes(x[1]) if x[0] == "push_str" else x[1]) for x in body]
-            raw_parts = [x for x in body if x[0] in ("push_str", "push_ascii") and ("get_message" in repr(x[1]) or "get_extended" in repr(x[1]) or "payload" in repr(x[1]))]
-            esc_calls = [e for e in p.calls if e.name.split("::")[-1] in ("push_escaped", "push_quoted")]
-            ok = ok and body and body[0][:2] == ("push_byte", ("K", 34)) and body[-1][:2] == ("push_byte", ("K", 34))
-            ok = ok and ("push_byte", ("K", 59)) in [(x[0], x[1]) for x in body]
-            # no text part may be pushed raw: it must go through the escaping helper (pieces of a split at '"')
-            text_pushes = [x for x in body if x[0] in ("push_str", "push_ascii") and C_bytes(x[1]) is None]
-            raw = [x for x in text_pushes if "next" not in repr(x[1])]
-            if raw:
-                ok = False
-                detail.append("message/extended text pushed raw (embedded '\"' not doubled): %s" % [sym_short(x[1]) for x in raw])
-        else:
-            ok = False
-        good = good and ok
-        if not ok:
-            detail.append("%s: %s" % (ext, seq))
-    R.check(good and kinds == {"plain", "extended"}, "R09.6", "Error", "code ',' then the quoted message[;extended] with embedded quotes doubled", "error-queue item must be written as code,\"message[;extended]\" with every text part quote-doubled: %s" % detail[:3], where=b.span)
+        code, msg = int(o["code"]), o["message"].encode()
+        cv = EnumV(EC, name, by_name[name], {})
+        for ext in (None, b"ch 1", b'bad "x"', b"", b"a;b"):
+            n += 1
+            exp = [("num", code), b"," + b'"' + q(msg) + (b";" + q(ext) if ext is not None else b"") + b'"']
+            try:
+                em = E.emit(eng, b, err(cv, E.sl(ext) if ext is not None else None))
+                why = E.check_emission(em, exp)
+            except (fdai.TooManyPaths, RecursionError) as e:
+                why = "undecided (%s)" % type(e).__name__
+            if why:
+                bad.append("%s ext=%r: %s" % (name, ext, why))
+                if why.startswith("undecided"):
+                    break
+        # non-ASCII extended text: refused; at most the code and the separator have been written
+        n += 1
+        try:
+            em = E.emit(eng, b, err(cv, E.sl(b"caf\xe9")))
+        except (fdai.TooManyPaths, RecursionError) as e:
+            bad.append("%s with non-ASCII extended text: undecided (%s)" % (name, type(e).__name__))
+            break
+        outs = em.full + em.partial
+        if em.other or not outs or any(oc != "Err(ExecutionError)" and not E.failed_write_outcome(oc) for oc, _ in outs) or any(not E._is_prefix(o_, [("num", code), b","]) for _, o_ in outs):
+            bad.append("%s with non-ASCII extended text: %s" % (name, em.describe()))
+    # user-defined codes carry their own message text
+    if "Custom" in by_name:
+        for msg, ext in ((b"Custom error", None), (b'say "no"', None), (b'say "no"', b'or "yes"')):
+            n += 1
+            cv = EnumV(EC, "Custom", by_name["Custom"], {0: K(-1234), 1: E.sl(msg)})
+            exp = [("num", -1234), b"," + b'"' + q(msg) + (b";" + q(ext) if ext is not None else b"") + b'"']
+            try:
+                em = E.emit(eng, b, err(cv, E.sl(ext) if ext is not None else None))
+                why = E.check_emission(em, exp)
+            except (fdai.TooManyPaths, RecursionError) as e:
+                why = "undecided (%s)" % type(e).__name__
+            if why:
+                bad.append("Custom(%r) ext=%r: %s" % (msg, ext, why))
+    R.check(not bad and (n >= 20 or bad), "R09.6", "Error", "code ',' '\"' message [';' extended] '\"' with embedded quotes doubled; non-ASCII text refused (%d values)" % n, "; ".join(bad[:4]), where=b.span)
 
 
 def sym_short(s):
